@@ -175,6 +175,18 @@ CHECKS = {
             "as C10; CVXOPT failures of the unambiguous variant are indeterminate (the property allows it)"),
 }
 
+# clauses added after the first build (mostly in response to seeded changes the first build missed)
+COMMON = (" Generic observers on every call: caller-owned arguments are snapshotted and must be bitwise unchanged afterwards; where enabled, "
+          "each call is repeated on Fortran-ordered copies of its 2-D arguments (memory-layout twin) and a third time after the first result "
+          "has been overwritten (repeat twin: results must not alias inputs, module state or earlier results).")
+
+
+def clause_list(pid):
+    """name: doc of every clause of the property as built (imported from mc.props so the manifest cannot drift from the code)."""
+    import importlib
+    mod = importlib.import_module("mc.props." + pid.lower())
+    return " Clauses as built: " + "; ".join(f"{c.name} - {c.doc}" for c in mod.CLAUSES) + "."
+
 PENDING_REASON = "check not built yet in this session (work in progress; see DESIGN.md section 7 for the planned exploration)"
 
 
@@ -202,6 +214,7 @@ def main():
     for pid in props:
         if pid in CHECKS:
             cat, tech, text, note = CHECKS[pid]
+            text = text + clause_list(pid) + COMMON
             man["checks"].append({
                 "property_id": pid,
                 "quick_cmd": f"./check {pid} --tier quick",
